@@ -1,4 +1,4 @@
-prop("C14", "c14.cpp", PLAIN, PLAIN_ASAN,
+prop("C14", "c14.cpp", [V("plain"), V("asan+reduced", flags=["-DVF_REDUCED"])], PLAIN_ASAN,
      explain="complete sweep of every 3-/2-/1-byte group through the real encoders/decoders against an arithmetic reference",
      bounds={"quick": "all 2^24 groups, all 2^16+2^8 tails (alone and after a full group), lengths 0..64 x 256 contents, all 2^16 hex pairs; static-initialisation battery (a battery over every operation family run from the constructor of a global object initialised before anything the library headers define, compared with main())",
              "thorough": "same sweeps plain and under ASan+UBSan, lengths 0..200"})
